@@ -184,6 +184,27 @@ def oracle_graph(case):
                         want_oe = me
                     if (oe.name, oe.end_type) != want_oe:
                         out.append(('other_end of %s from %s%s' % (str(l), s.name, et), want_oe, (oe.name, oe.end_type)))
+    if not out:
+        # the collections follow the document: when a gap, an edge, a link or a containment goes, the collections of both
+        # its segments are those of the document without it
+        for x in [l for l in G.lines if l.record_type in ('G', 'E', 'L', 'C', 'F')]:
+            rest = [l for l in lines if l != str(x)]
+            if len(rest) != len(lines) - 1:
+                continue                      # written differently from the text, or given twice: not used here
+            G2 = g.Gfa(lines, vlevel=1)
+            y = [l for l in G2.lines if str(l) == str(x)][0]
+            r = impl.outcome(lambda: G2.rm(y))
+            if r[0] != 'ok':
+                continue
+            exp2 = expected_collections([str(l) for l in G2.lines if l.record_type != 'H' and not l.virtual])
+            for s in G2.segments:
+                for k in COLLS + ['gaps_L', 'gaps_R', 'fragments']:
+                    got = sorted(str(z) for z in getattr(s, k, []))
+                    w = sorted(exp2.get(s.name, {}).get(k, []))
+                    if got != w:
+                        out.append(('after the removal of %r collection %s of segment %s differs from the specification'
+                                    % (str(x)[:40], k, s.name), w, got))
+                        return out
     return out
 
 
